@@ -136,6 +136,8 @@ impl CompactionHandover {
 
         let drained_labels = {
             let _guard = self.flush_lock.lock().await;
+            #[cfg(feature = "verif-hooks")]
+            crate::verif_hooks::point("ho.locked", self.shard_id as u64);
             let mut index = SegmentIndex::load(&self.shard_dir).await?;
 
             // Log segment states before retirement
@@ -274,7 +276,11 @@ impl CompactionHandover {
                 );
             }
 
+            #[cfg(feature = "verif-hooks")]
+            crate::verif_hooks::point("ho.before_save", self.shard_id as u64);
             index.save(&self.shard_dir).await?;
+            #[cfg(feature = "verif-hooks")]
+            crate::verif_hooks::point("ho.saved", self.shard_id as u64);
 
             if tracing::enabled!(tracing::Level::INFO) {
                 tracing::info!(
@@ -308,7 +314,11 @@ impl CompactionHandover {
             "Updated shared segment id list"
         );
 
+        #[cfg(feature = "verif-hooks")]
+        crate::verif_hooks::point("ho.live_updated", self.shard_id as u64);
         self.invalidate_caches(&drained_labels);
+        #[cfg(feature = "verif-hooks")]
+        crate::verif_hooks::point("ho.caches_invalidated", self.shard_id as u64);
 
         Ok(drained_labels)
     }
@@ -369,6 +379,8 @@ impl CompactionHandover {
         let batch_dir = reclaim_root.join(timestamp.to_string());
         fs::create_dir_all(&batch_dir)?;
 
+        #[cfg(feature = "verif-hooks")]
+        crate::verif_hooks::point("rc.before_move", shard_id as u64);
         for label in &retired {
             let src = shard_dir.join(label);
             if !src.exists() {
@@ -386,6 +398,8 @@ impl CompactionHandover {
             }
         }
 
+        #[cfg(feature = "verif-hooks")]
+        crate::verif_hooks::point("rc.moved", shard_id as u64);
         for label in &retired {
             let path = batch_dir.join(label);
             match fs::remove_dir_all(&path) {
@@ -398,6 +412,8 @@ impl CompactionHandover {
             }
         }
 
+        #[cfg(feature = "verif-hooks")]
+        crate::verif_hooks::point("rc.deleted", shard_id as u64);
         match fs::remove_dir(&batch_dir) {
             Ok(_) => {
                 debug!(target: "compaction_handover::reclaim", shard = shard_id, "Cleaned empty reclaim batch directory")
